@@ -54,6 +54,8 @@ class ExportConfig:
             value = param.value
             if isinstance(param, StringType):
                 dtype = StringNode.keyword
+                # DIP reads \' and \" inside a quoted value as quote characters
+                value = str(value).replace("'","\\'").replace("\"","\\\"")
                 value = f"\"{value}\""
             elif isinstance(param, BooleanType):
                 dtype = BooleanNode.keyword
